@@ -43,7 +43,7 @@ def case_strategy(draw, tier):
             t["parents"] = par
     else:
         t = draw(gen_tree.tree_case(min_n=2, max_n=max_n, regimes=["lattice", "coincident", "float"]))
-    return {"tree": t, "then": draw(st.sampled_from(["nothing", "nothing", "sort", "redirect", "reparent", "copy-reparent"])), "sel": draw(st.integers(0, 10 ** 6))}
+    return {"tree": t, "then": draw(st.sampled_from(["nothing", "nothing", "sort", "redirect", "reparent", "copy-reparent", "branch-tree", "branch-tree"])), "sel": draw(st.integers(0, 10 ** 6))}
 
 
 def run_case(case, ctx):
@@ -79,6 +79,21 @@ def run_case(case, ctx):
             t2 = dict(t, parents=[b if i == a else p for i, p in enumerate(t["parents"])])
             ctx.cls("re-parented-in-place-after-a-first-decomposition:" + how)
             _decompose(t2, target, ctx)
+        return
+    if how == "branch-tree" and n >= 2:
+        # the branch tree is a tree in its own right (an instance of a Tree subclass): decomposed on its own terms, its own
+        # branch tree included
+        from swcgeom.core import BranchTree
+        from swcgeom.transforms import ToBranchTree
+
+        derived = ToBranchTree()(tree) if case["sel"] % 2 else BranchTree.from_tree(tree)
+        t2 = dict(t, parents=[int(v) for v in derived.pid()])
+        for col in ("x", "y", "z", "r", "w"):
+            t2[col] = [float(v) for v in derived.get_ndata(col)]
+        t2["type"] = [int(v) for v in derived.type()]
+        t2["tag"] = [int(v) for v in derived.get_ndata("tag")]
+        ctx.cls("branch-tree-decomposed-as-a-tree")
+        _decompose(t2, derived, ctx)
         return
     if how != "nothing" and n >= 2:
         derived = sort_tree(tree) if how == "sort" else redirect_tree(tree, case["sel"] % n)
@@ -203,6 +218,7 @@ SUBCHECKS = [
                   "rootdeg:3+": 20, "furcations>=2": 200, "permuted": 200,
                   "derived-tree-decomposed-after-its-source:sort": 100, "derived-tree-decomposed-after-its-source:redirect": 100,
                   "source-edited-in-place-right-after-the-conversion": 300, "a-node-with-256-or-more-children": 10,
-                  "re-parented-in-place-after-a-first-decomposition:reparent": 100,
-                  "re-parented-in-place-after-a-first-decomposition:copy-reparent": 100}),
+                  "re-parented-in-place-after-a-first-decomposition:reparent": 60,
+                  "re-parented-in-place-after-a-first-decomposition:copy-reparent": 60,
+                  "branch-tree-decomposed-as-a-tree": 150}),
 ]
